@@ -329,7 +329,10 @@ def run(prop, tier="quick", seed=0, write_baseline=False):
             len(bounded.get("failures", []))))
     if vacuous:
         print("CHECKER ERROR: vacuous contract(s): " + ", ".join(o.name for o in vacuous))
-        return 3
+        if not violations:
+            return 3
+        # on changed code a contract can become vacuous because an invariant no longer fits the loop it is attached to;
+        # the failed obligations below say so and are reported (a vacuous contract alone is a checker error)
     if bounded is not None and bounded.get("evaluations", 0) == 0 and not violations:
         print("CHECKER ERROR: the bounded stand-in evaluated nothing (corpus not found?)")
         return 3
